@@ -42,8 +42,6 @@ func init() {
 	register("os.LookupEnv", func(m *Machine, fr *frame, fn *ssa.Function, args []Value) Value {
 		return Tuple{Str{}, m.F.False}
 	})
-	register("go.opentelemetry.io/otel/trace.NewNoopTracerProvider", opaque("trace.TracerProvider"))
-	register("go.opentelemetry.io/otel/trace/noop.NewTracerProvider", opaque("trace.TracerProvider"))
 }
 
 func init() {
